@@ -6,7 +6,8 @@
    order; exactly balanced transactions without elided amounts are stable (the order-free
    fragment of the property; exactly_balanced_is_stable). *)
 From LedgerV Require Import Base.Prelude Base.Round Model.Amount Model.Xact Model.Journal
-  Proofs.AmountProofs Proofs.XactProofs Proofs.JournalProofs Proofs.CompareProofs.
+  Proofs.AmountProofs Proofs.XactProofs Proofs.JournalProofs Proofs.CompareProofs
+  Model.AmountText Proofs.AmountTextProofs.
 From Coq Require Import Permutation.
 Local Open Scope Q_scope.
 
@@ -61,6 +62,14 @@ Theorem display_precision_independent_of_posting_order : forall pre x x' post s,
   pool_get (final_pool (pre ++ x :: post)) s = pool_get (final_pool (pre ++ x' :: post)) s.
 Proof. exact pool_order_free_posts. Qed.
 Print Assumptions display_precision_independent_of_posting_order.
+
+(* the display STYLE a commodity learns (symbol side, separating blank, thousands marks, decimal comma) is the union of
+   the styles of the amounts seen - every amount contributes, whatever its precision - hence independent of their order
+   (amount.cc parse(): commodity().add_flags(comm_flags), unconditionally) *)
+Theorem display_style_independent_of_order : forall ci l l',
+  Permutation l l' -> ci_style (learn_all ci l) = ci_style (learn_all ci l').
+Proof. exact learn_all_style_perm. Qed.
+Print Assumptions display_style_independent_of_order.
 
 (* a commodity-less amount is displayed with its own precision; the precision of a sum of such amounts is the
    largest among the summands, so what an account shows does not depend on the order they arrived in *)
